@@ -21,9 +21,9 @@ RULE = (
     "A second family are files on which doctrans must fail (syntax errors): the bytes must be unchanged. Non-trivial = "
     "a run changed the file and the module has a parameter with a default or */**. Distinct = SHA-1 of (module, history)."
 )
-TIERS = {"quick": {"shards": 8, "n": 160, "n_fault": 25, "budget_s": 220}, "thorough": {"shards": 16, "n": 2500, "n_fault": 300, "budget_s": 2700}}
+TIERS = {"quick": {"shards": 8, "n": 160, "n_fault": 25, "n_inject": 60, "budget_s": 220}, "thorough": {"shards": 16, "n": 2500, "n_fault": 300, "n_inject": 1500, "budget_s": 2700}}
 FLOOR = {"quick": 60, "thorough": 4000}
-REQUIRED_LABELS = {"quick": ["has-default", "star-args", "kw-only", "decorated", "multi-line-header", "nested-def", "class", "runs=2", "via-cli"], "thorough": []}
+REQUIRED_LABELS = {"quick": ["has-default", "star-args", "kw-only", "decorated", "multi-line-header", "nested-def", "class", "runs=2", "via-cli", "fault-fired", "fault-propagated"], "thorough": []}
 ASSUMPTIONS = [
     "erase() removes docstring Expr nodes, arg/return annotations, turns AnnAssign-with-value into Assign, drops value-less AnnAssign, clears type_comment - on both sides identically",
     "the shapes that are open findings (P19 async docstring, P26 comment in multi-line header, P27 one-line def, P28 raw docstring, P68 decorated def with a trailing header comment) are generated only under their own labels",
@@ -259,6 +259,105 @@ def oracle_fault(case):
     return r
 
 
+# ---- injected faults: a conversion step raises in the middle of a run on a VALID module --------------------------------
+# (module, attribute) of functions doctrans goes through; the k-th call is made to raise.  Every cdd module that holds
+# the same function object under that name is patched (doctrans imports several of them by name).
+FAULT_POINTS = [
+    ("cdd.shared.ast_cst_utils", "maybe_replace_doc_str_in_function_or_class"),
+    ("cdd.shared.ast_cst_utils", "maybe_replace_function_return_type"),
+    ("cdd.shared.ast_cst_utils", "maybe_replace_function_args"),
+    ("cdd.shared.ast_cst_utils", "find_cst_at_ast"),
+    ("cdd.compound.doctrans_utils", "doctransify_cst"),
+    ("cdd.shared.cst", "cst_parse"),
+    ("cdd.shared.cst_utils", "cst_scanner"),
+    ("cdd.docstring.emit", "docstring"),
+    ("cdd.shared.docstring_parsers", "parse_docstring"),
+    ("cdd.shared.source_transformer", "to_code"),
+    ("cdd.shared.ast_utils", "cmp_ast"),
+]
+
+
+class InjectedFault(RuntimeError):
+    pass
+
+
+@st.composite
+def injected_case(draw):
+    m = draw(gen_prog.module(max_items=3))
+    return {"src": m["src"], "style": draw(st.sampled_from(["rest", "google", "numpydoc"])), "ta": draw(st.booleans()), "cli": draw(st.booleans()),
+            "point": draw(st.integers(0, len(FAULT_POINTS) - 1)), "k": draw(st.integers(1, 6)), "inject": True}
+
+
+def oracle_injected(case):
+    import sys
+
+    r = Result()
+    modname, attr = FAULT_POINTS[case["point"]]
+    r.label("inject:" + attr)
+    try:
+        ast.parse(case["src"])
+    except SyntaxError as e:
+        raise core.HarnessError("generator produced invalid Python: %s" % e)
+    importlib = __import__("importlib")
+    target = getattr(importlib.import_module(modname), attr)
+    calls = [0]
+
+    def wrapper(*a, **k):
+        calls[0] += 1
+        if calls[0] == case["k"]:
+            raise InjectedFault("injected at call %d of %s" % (calls[0], attr))
+        return target(*a, **k)
+
+    patched = []
+    for name, mod in list(sys.modules.items()):
+        if name.startswith("cdd") and mod is not None and getattr(mod, attr, None) is target:
+            setattr(mod, attr, wrapper)
+            patched.append(mod)
+    d = tempfile.mkdtemp(prefix="c07i_", dir="/dev/shm" if os.path.isdir("/dev/shm") else None)
+    try:
+        p = os.path.join(d, "m.py")
+        with open(p, "w") as f:
+            f.write(case["src"])
+        raised = None
+        try:
+            run_doctrans(p, case["style"], case["ta"], None, case["cli"])
+        except BaseException as e:
+            if isinstance(e, (core.CaseTimeout, KeyboardInterrupt)):
+                raise
+            raised = e
+        fired = calls[0] >= case["k"]
+        after = open(p).read()
+        others = sorted(x for x in os.listdir(d) if x != "m.py" and x != "__pycache__")
+        if fired:
+            r.label("fault-fired")
+            if raised is not None:
+                r.label("fault-propagated")
+                if after != case["src"]:
+                    r.fail("fault-atomicity", "a conversion step (%s, call %d) raised %s and the file was left changed" % (attr, case["k"], type(raised).__name__))
+                if others:
+                    r.fail("fault-leftovers", "the failed run left %s behind" % others)
+            else:
+                # the error was swallowed: whatever was written must still satisfy the ordinary clauses
+                r.label("fault-swallowed")
+                try:
+                    if erased(after) != erased(case["src"]):
+                        r.fail("fault-atomicity", "%s (call %d) failed, doctrans returned normally and the program changed" % (attr, case["k"]))
+                except SyntaxError as e:
+                    r.fail("fault-atomicity", "%s (call %d) failed, doctrans returned normally and left invalid Python: %s" % (attr, case["k"], e))
+            r.nontrivial = True
+        else:
+            r.label("fault-not-reached")
+    finally:
+        for mod in patched:
+            setattr(mod, attr, target)
+        shutil.rmtree(d, ignore_errors=True)
+    return r
+
+
+def layer_injected(ctx):
+    ctx.run_given("injected-faults", injected_case(), oracle_injected, ctx.cfg["n_inject"])
+
+
 def layer_main(ctx):
     ctx.run_given("programs", strategy(ctx), oracle, ctx.cfg["n"])
 
@@ -271,8 +370,10 @@ def layer_fault(ctx):
     ctx.run_given("faults", fault_case(), oracle_fault, ctx.cfg["n_fault"])
 
 
-LAYERS = [("programs", layer_main), ("hazard-shapes", layer_hazards), ("faults", layer_fault)]
+LAYERS = [("programs", layer_main), ("hazard-shapes", layer_hazards), ("faults", layer_fault), ("injected-faults", layer_injected)]
 
 
 def replay(case):
+    if case.get("inject"):
+        return oracle_injected(case)
     return oracle_fault(case) if case.get("fault") else oracle(case)
